@@ -369,7 +369,8 @@ def scenario_spec(draw, c=None):
             out[0][1] = 2
         return out
     A = {"name": "A", "levels": levels("a", nl(), "weight-crossed" in feats)}
-    B = {"name": "B", "levels": levels("b", nl(), "weight-uncrossed" in feats)}
+    nB = 1 if (c.get("small_uncrossed") and "weight-uncrossed" not in feats and draw(st.booleans())) else nl()
+    B = {"name": "B", "levels": levels("b", nB, "weight-uncrossed" in feats)}   # one level: keeps exact draw trees (C05) small
     factors = [A, B]
     if draw(st.integers(0, 3)) == 0:
         factors.append({"name": "C", "levels": levels("c", 2, False)})
